@@ -269,6 +269,6 @@ def t_history(shard, nshards, seed, ev, known, n=300):
 def plan(tier):
     q = tier == "quick"
     return [
-        Task("history", t_history, shards=6 if q else 16, n=400 if q else 15000),
+        Task("history", t_history, shards=6 if q else 16, n=400 if q else 8000),
         Task("dir", t_dir, shards=3 if q else 16, n=120 if q else 2000),
     ]
